@@ -185,6 +185,22 @@ theorem skipping_a_real_change_is_stale (notify : Nat → Nat → Bool) (a b : N
     ¬ Sources.V.Fresh (wiringOf "Elastic") (Sources.V.run (wiringOf "Elastic") notify Sources.V.init [.assign (Sources.idOf "model") a, .read, .assign (Sources.idOf "model") b, .read]) :=
   Sources.V.inexact_test_goes_stale _ _ _ a b (by decide) hab hskip
 
+/-- **every mesh object that becomes the simulation's mesh is subscribed to**: `self.__mesh` is assigned in the mesh setter and in
+`__Update_mesh` only (the translator refuses any other place; the MPI gatherer `_Gather` is not modelled), and both subscribe the
+simulation to the object they install — `__Update_mesh` in the branch where the mesh is a new object read back from the disk
+(the mesh objects still in memory were subscribed to by the setter). Before fix d2c78d6 the second entry had no subscription. -/
+theorem mesh_installers_subscribe :
+    Gen.C14.meshInstallers.map (·.1) = ["mesh.setter", "__Update_mesh"] ∧
+    (∀ f ∈ Gen.C14.meshInstallers, f.2.contains "mesh._Add_observer(self)" = true ∧ f.2.contains "self.__mesh = mesh" = true) ∧
+    (Gen.C14.meshInstallers.lookup "__Update_mesh").map (fun l => l.take 2) = some ["mesh = self.__Load_mesh(mesh)", "mesh._Add_observer(self)"] := by
+  decide
+
+/-- what the subscription is for: a mesh object installed without it is a dependency nobody observes, and moving it leaves the
+cached matrices in place (instance of `Sources.unobserved_dep_goes_stale`: dependency 1 is the mesh) -/
+theorem unsubscribed_mesh_goes_stale :
+    ¬ Sources.Fresh ⟨[0, 1], [0]⟩ (Sources.run ⟨[0, 1], [0]⟩ Sources.init [.read, .set 1, .read]) :=
+  Sources.unobserved_dep_goes_stale _ _ (by decide) (by decide)
+
 end Wiring
 
 end EasyFEAVerif.Props.C14
